@@ -38,6 +38,8 @@ TREES = _subsets(E1) + [t for t in _subsets(E2) if t]
 
 
 class DiscoverySpace(spaces.Space):
+    SINGLE_DELETION = False
+
     def __init__(self, maxargs):
         self.name = f"discovery(args<={maxargs})"
         self.arglists = []
